@@ -93,18 +93,31 @@ def ntag_authenticate(sx, product, plen, nak_as):
     return [product, plen, r]
 
 
-def ntag_history(sx, product, calls, nak_as):
+HISTORY_KEYS = [b"\x11\x22\x33\x44\x55\x66", b"ABCDEF"]
+
+
+def ntag_history(sx, product, calls, nak_as, concrete=False):
     """several authenticate() calls through ONE tag object; between the calls
     the key on the tag may be replaced (by another reader, or a raw write of
     the configuration pages).  Every result must reflect the key the tag
     holds at the time of that call - nothing remembered from earlier calls
-    may answer in the tag's place."""
+    may answer in the tag's place.  concrete: passwords and tag keys from a
+    set of two concrete values (an implementation may use a password as a
+    dictionary key or set member, which symbolic octets cannot be)"""
     sim, tag = nxp_tag(sx, product, nak_as)
+    if concrete:
+        k0 = list(HISTORY_KEYS[sx.pick("k0", [0, 1])])
+        sim.pages[sim.cfg + 2] = k0[0:4]
+        sim.pages[sim.cfg + 3] = k0[4:6] + [0, 0]
+        sx.reach("ntag:history-with-concrete-keys")
     prev = None
     out = []
     for i in range(calls):
         if i > 0 and sx.pick("rekey%d" % i, [1, 0]):
-            new = list(sx.bytes("tag.pwd%d" % i, 4)) + list(sx.bytes("tag.pack%d" % i, 2))
+            if concrete:
+                new = list(HISTORY_KEYS[sx.pick("k%d" % i, [0, 1])])
+            else:
+                new = list(sx.bytes("tag.pwd%d" % i, 4)) + list(sx.bytes("tag.pack%d" % i, 2))
             sim.pages[sim.cfg + 2] = new[0:4]
             sim.pages[sim.cfg + 3] = new[4:6] + [0, 0]
             sx.reach("ntag:key-replaced-between-calls")
@@ -127,6 +140,10 @@ def ntag_history(sx, product, calls, nak_as):
         if prev is not None and sx.pick("again%d" % i, [1, 0]):
             p = prev
             sx.reach("ntag:same-password-again")
+        elif concrete:
+            p = HISTORY_KEYS[sx.pick("p%d" % i, [0, 1])]
+            if sx.pick("p%d.mutable" % i, [0, 1]):
+                p = bytearray(p)
         else:
             p = nxp_password(sx, "p%d" % i, 6)
         prev = p
@@ -829,6 +846,8 @@ def partitions(tier):
         for nak in ("byte", "timeout"):
             parts.append(dict(name="ntag-history:%s:%s" % (prod, nak), fn="ntag_history",
                               params=dict(product=prod, calls=2 if quick else 3, nak_as=nak)))
+            parts.append(dict(name="ntag-history:%s:%s:concrete-keys" % (prod, nak), fn="ntag_history",
+                              params=dict(product=prod, calls=3, nak_as=nak, concrete=True)))
     for prod in (["NTAG213", "MF0UL11"] if quick else prods):
         for plen in (0, 6, 8):
             for tlen in (0, 1, 2, 3):
@@ -949,7 +968,7 @@ _REACH = [
     "lite:too-many-blocks-refused-by-tag",
 ]
 MUST_REACH = {
-    "quick": _REACH,
+    "quick": _REACH + ["ntag:history-with-concrete-keys"],
     "thorough": _REACH + ["lite:multi-read-returned", "lite:multi-read-refused",
                           "lite:multi-read-data-block-replaced"],
 }
@@ -959,7 +978,7 @@ BOUNDS = {
     "2^48 stored PWD||PACK x all password bytes, NAK surfaced as time-out or "
     "as NAK byte; protect(p) (lengths 0,3,6,8; read_protect x protect_from in "
     "{0,4,300}; arbitrary old PWD/PACK, CC page and CFG1) followed by "
-    "authenticate(q) (lengths 0,6,7), all p,q; histories of 2 (thorough 3) authenticate() calls through one tag object with the tag's key replaced between the calls or not and the same or another password; PACK answer replaced in transit "
+    "authenticate(q) (lengths 0,6,7), all p,q; histories of 3 authenticate() calls with passwords and tag keys from two concrete values; histories of 2 (thorough 3) authenticate() calls through one tag object with the tag's key replaced between the calls or not and the same or another password; PACK answer replaced in transit "
     "by 0..3 arbitrary bytes.  FeliCa Lite and Lite-S over the ideal cipher: "
     "authenticate(p) for all 2^128 card keys x all passwords of length "
     "{0,5,16,17,23,24,32} x all challenges x all ID blocks (Lite-S: all write counters); "
